@@ -112,11 +112,11 @@ After strengthening: 100 of 100 caught.
 | C19-5 | the change is in the *memory* of the configuration fingerprint across passes, which no single parse/serialise observes | nothing to add to C19: the C10 histories (configuration changed, then changed back) report stale outputs |
 | C20-5 | the change is in the serialiser: rule filters do not reach the fingerprint | nothing to add to C20, whose single runs are unaffected: C19's distinguishability check reports `indistinguishable:..:differ[skip_files]` |
 
-**Fourth round** (`<property>-7`; written in the last session with the monitors as they stood, no strengthening in between): every change of this round was reported by the quick tier of the check of its own property on the first pass
-(C02-7: unary operand parenthesised by the generator and then a `(`-statement, `dense:different-tree`; C05-7: `./`-spelled alias gives one file two bundle keys, `result`; C13-7: re-parse precision check skipped for recorded exponents 0..22, `number:dense:decimal:wrong-value`; C16-7: `local a = 1, g()` merged with the next `local`, `trace|group_local_assignment|local_with_more_values_than_names_followed_by_local`; the other rows numbered 7 read the same way in the table).
+**Fourth round** (`<property>-7`; written in the last session with the monitors as they stood, no strengthening in between): seven of the eight changes of this round were reported by the quick tier of the check of their own property on the first pass; the eighth (C04-7: hexadecimal literals no longer follow `shift_token_line`) is not reported by C04, C18 or C05 and is left that way on purpose: the shift is only applied by append_text_comment with location `start` and by the bundler, which move lines by design, so C04's pipelines never call it, C18 pins lines only for location `end`, and the token sequence stays the same - a monitor for it would demand more than any given property states (a uniform shift)
+(C02-7: unary operand parenthesised by the generator and then a `(`-statement, `dense:different-tree`; C05-7: `./`-spelled alias gives one file two bundle keys, `result`; C13-7: re-parse precision check skipped for recorded exponents 0..22, `number:dense:decimal:wrong-value`; C16-7: `local a = 1, g()` merged with the next `local`, `trace|group_local_assignment|local_with_more_values_than_names_followed_by_local`; C09-7: kept local-function name put in the reuse pool - the same slip an earlier author chose for C01-6 - `alpha:binding-changed`; C18-7: text opening with `[==[` written as a line comment, `append:output-unlexable`; C20-7: top-level `skip_files` ignored when `apply_to_files` is set, `top:unselected-file-fully-transformed`).
 These shapes were in the workloads because earlier rounds or genuine findings had put them there (the `./` key of C05 and the more-values-than-names declaration of C16 are both repaired defects whose witnesses stayed as generator blocks).
 
-After strengthening: all caught (see the count above the table).  The rounds say the same thing: every monitor catches what its workload contains, roughly 40 % of independently
+After strengthening: every change that breaks a given property is caught (counts above the table; the one row not caught is C04-7, explained above).  The rounds say the same thing: every monitor catches what its workload contains, roughly 40 % of independently
 chosen shapes were missing at the time they were tried, and the misses cluster in input *shapes* (a rule option, a position, a file layout) rather than in the oracles — the only
 oracle-level corrections were the too-broad tolerances (C10, C15), the reference run trusted for what counts as faulty (C11) and the confirmation step that dropped history-dependent failures.  The same caveat as for every sampled monitor applies: a seeded change is caught when the workload holds the shape it needs; the two rounds show that about a third of independently chosen shapes were missing at first, so more remain.  A change being caught by the check of *its* property is the minimum asked; several are also visible to neighbouring checks (the scope-visitor change of C01-2 / C09-2 to C01, C09, C16; the generator newline-counting change of C03-1 / C04-2 to C03 and C04; the string-form change of C02-2 / C14-1 to C02, C13, C14), which was not measured systematically.
 """
